@@ -2016,19 +2016,20 @@ class Surface(SplineGeometry):
         # Keyword arguments
         force_tessellate = kwargs.pop('force', False)  # force re-tessellation
 
-        # No need to re-tessellate if we have already tessellated the surface
-        if self._tsl_component.is_tessellated() and not force_tessellate:
-            return
-
         # Remove duplicate elements from the kwargs dictionary
         kwlist = ["size_u", "size_v", "trims", "domain"]
         for kw in kwlist:
             if kw in kwargs:
                 kwargs.pop(kw)
 
+        # No need to re-tessellate if we have already tessellated the surface with the same arguments
+        if self._tsl_component.is_tessellated() and not force_tessellate and kwargs == getattr(self, '_tsl_args', kwargs):
+            return
+
         # Call tessellation component for vertex and triangle generation
         self._tsl_component.tessellate(self.evalpts, size_u=self.sample_size_u, size_v=self.sample_size_v,
                                        trims=self.trims, domain=self.domain, **kwargs)
+        self._tsl_args = dict(kwargs)  # a request with other arguments (e.g. vertex_spacing) is another tessellation
 
         # Re-evaluate vertex coordinates
         for idx in range(len(self._tsl_component.vertices)):
